@@ -502,7 +502,9 @@ func (s *Server) attachClient(cl *Client, listener string) error {
 		s.sendLWT(cl)
 		cl.Stop(err)
 	} else {
+		cl.Lock()
 		cl.Properties.Will = Will{} // [MQTT-3.14.4-3] [MQTT-3.1.2-10]
+		cl.Unlock()
 	}
 	s.Log.Debug("client disconnected", "error", err, "client", cl.ID, "remote", cl.Net.Remote, "listener", listener)
 
@@ -1588,11 +1590,14 @@ func (s *Server) closeListenerClients(listener string) {
 
 // sendLWT issues an LWT message to a topic when a client disconnects.
 func (s *Server) sendLWT(cl *Client) {
-	if atomic.LoadUint32(&cl.Properties.Will.Flag) == 0 {
+	cl.RLock()
+	will := cl.Properties.Will // the housekeeping and the handler of a newer connection may clear it concurrently
+	cl.RUnlock()
+	if will.Flag == 0 {
 		return
 	}
 
-	modifiedLWT := s.hooks.OnWill(cl, cl.Properties.Will)
+	modifiedLWT := s.hooks.OnWill(cl, will)
 	if !IsValidFilter(modifiedLWT.TopicName, true) || !s.hooks.OnACLCheck(cl, modifiedLWT.TopicName, true) {
 		return // a will is subject to the same topic and write-permission checks as any other publish by the client
 	}
@@ -1612,7 +1617,7 @@ func (s *Server) sendLWT(cl *Client) {
 		Created: time.Now().Unix(),
 	}
 
-	if cl.Properties.Will.WillDelayInterval > 0 {
+	if will.WillDelayInterval > 0 {
 		// If this connection was taken over, the connection that replaced it has already decided the delayed
 		// will's fate: a resumed session cancels it [MQTT-3.1.3-9], a clean start ended the session so it is due now.
 		newer, ok := s.Clients.Get(cl.ID)
@@ -1621,7 +1626,7 @@ func (s *Server) sendLWT(cl *Client) {
 			return
 		}
 		if !takenOver {
-			pk.Connect.WillProperties.WillDelayInterval = cl.Properties.Will.WillDelayInterval
+			pk.Connect.WillProperties.WillDelayInterval = will.WillDelayInterval
 			pk.Expiry = time.Now().Unix() + int64(pk.Connect.WillProperties.WillDelayInterval)
 			s.loop.willDelayed.Add(cl.ID, pk)
 			return
@@ -1633,7 +1638,9 @@ func (s *Server) sendLWT(cl *Client) {
 	}
 
 	s.publishToSubscribers(pk)                      // [MQTT-3.1.2-8]
-	atomic.StoreUint32(&cl.Properties.Will.Flag, 0) // [MQTT-3.1.2-10]
+	cl.Lock()
+	cl.Properties.Will.Flag = 0 // [MQTT-3.1.2-10]
+	cl.Unlock()
 	s.hooks.OnWillSent(cl, pk)
 }
 
@@ -1850,7 +1857,9 @@ func (s *Server) sendDelayedLWT(dt int64) {
 			if pk.FixedHeader.Retain {
 				s.retainMessage(cl, pk)
 			}
+			cl.Lock()
 			cl.Properties.Will = Will{} // [MQTT-3.1.2-10]
+			cl.Unlock()
 			s.hooks.OnWillSent(cl, pk)
 			s.loop.willDelayed.Delete(id)
 		}
